@@ -161,6 +161,13 @@ class Ext:
     def use(self, name: str):
         import phonopy
 
+        if name == "none":
+            # no compiled extension: `import phonopy._phonopy` raises ImportError and the in-repository Python fallbacks run
+            sys.modules["phonopy._phonopy"] = None
+            if hasattr(phonopy, "_phonopy"):
+                del phonopy._phonopy
+            self.current = "none"
+            return None
         m = self.mods[name]
         sys.modules["phonopy._phonopy"] = m
         phonopy._phonopy = m
